@@ -17,3 +17,5 @@ ASSUMPTIONS = [
     'park contract "my grant was issued by my round\'s serial fiber" is justified by the protocol lemma (lemmas.c: with alternating wait lists the round-k serial fiber pops only round-k entries) and the mpsc queue contract (C15); the lemma is over the abstract protocol, tied to the code by the per-call obligations "parks on / wakes from the list of its own round"',
     'the clause "SERIAL iff the arrival number is a multiple of count" is cross-checked for the listed concrete counts only (all 2^64 arrival numbers each): a second symbolic 64-bit modulo is beyond every SAT back end on this image; for symbolic count the proof covers everything else (one arrival, serial branch wakes count-1 once and never parks, other branch parks once)',
 ]
+# obligation groups of other properties' specifications that this property also rests on (its anchors name those files); see DESIGN.md 11.2
+IMPORTS = [dict(prop='C01', groups=['wait_in_mpsc', 'wake_from_mpsc', 'maintenance', 'maintenance_migrating_unlock'])]
